@@ -1,11 +1,11 @@
 """C13 reading a grammar file recovers exactly the grammar that was written."""
-from .. import lexrules, shape
+from .. import lexrules, shape, skel
 
 LEVEL = "other"
 EXHAUSTIVE = True
 EXPLANATION = ("Structural clauses of C13 on the hand-written lexer glue and the self-hosted parser: (LEXBAL) the string lexer advances by exactly the "
                "characters it inspects and tokenize keeps tokens and spans aligned; (PEEK) hand-written predicates see the token stream only through "
-               "the skip-filtered lookahead, so layout (whitespace, comments) cannot change a parse decision; (CG) the regex rules nest along the "
+               "the skip-filtered lookahead, so layout (whitespace, comments) cannot change a parse decision; (S16) on the self-hosted parser instance, peek and peek_left step over every skipped token (filter by is_skipped before nth), however many lie between two significant tokens; (CG) the regex rules nest along the "
                "documented precedence chain and each level consumes only its own operator. (ACCTOK) every typed accessor reads a token kind its node can own. That the typed view equals the written grammar for "
                "every layout is not decided.")
 
@@ -14,6 +14,8 @@ def run(ctx, rep):
     lexrules.lexbal_rule(ctx, rep)
     lexrules.peek_rule(ctx, rep)
     lexrules.cg_rule(ctx, rep)
+    for inst in ctx.instances(with_corpus=False):
+        if inst.unit.crate == "lelwel":
+            skel.s16_peek(inst, rep)
     shape.agreement_rule(ctx, rep)
     rep.assume("logos' generated automaton implements the token patterns written in the attributes of enum Token (trusted dependency)")
-    rep.assume("the generic lookahead functions peek/peek_left filter skipped tokens: decided as S16 under C16")
